@@ -272,6 +272,10 @@ Lemma add_gt_fields p a b :
   work (add_golden_ticket p a b) = work p.
 Proof. unfold add_golden_ticket. destruct (existsb _ _); simpl; auto. Qed.
 
+(* the transactions of a block that delete_transactions looks up in Mempool.transactions *)
+Definition in_block (t : tx) (btxs : list tx) : bool :=
+  existsb (fun u => match t_type u with TGoldenTicket => false | _ => t_id u =? t_id t end) btxs.
+
 Lemma in_block_cons t a b :
   in_block t (a :: b) =
   (match t_type a with TGoldenTicket => false | _ => t_id a =? t_id t end) || in_block t b.
@@ -315,19 +319,15 @@ Qed.
 
 Lemma remove_block_fields l p b :
   txs (remove_block_transactions l p b)
-    = filter (fun t => negb (in_block t b)) (filter (valid_against l) (txs p)) /\
-  umap (remove_block_transactions l p b) = umap p /\
+    = filter (fun t => valid_against l t && negb (in_block t b)) (txs p) /\
+  umap (remove_block_transactions l p b)
+    = fold_right sadd [] (block_keys (txs (remove_block_transactions l p b))) /\
   work (remove_block_transactions l p b) = sum_work (txs (remove_block_transactions l p b)).
 Proof.
-  unfold remove_block_transactions, delete_transactions.
-  destruct (delete_fold_fields b (set_txs p (filter (valid_against l) (txs p)))) as [H1 [H2 _]].
-  simpl. rewrite H1, H2. simpl. auto.
+  unfold remove_block_transactions, delete_transactions, rebuild_utxo_map.
+  destruct (delete_fold_fields b (set_txs p (filter (valid_against l) (txs p)))) as [H1 _].
+  cbn [txs umap work set_work]. rewrite H1. cbn [txs set_txs]. rewrite filter_filter. auto.
 Qed.
-
-Lemma delete_block_fields p h :
-  txs (delete_block p h) = txs p /\ umap (delete_block p h) = umap p /\
-  work (delete_block p h) = work p.
-Proof. unfold delete_block. simpl. auto. Qed.
 
 (* ------------------------------------------------------------------ *)
 (* bundle_block                                                        *)
@@ -335,13 +335,16 @@ Proof. unfold delete_block. simpl. auto. Qed.
 Definition bundled_pool (p1 : pool) (block : list tx) : pool :=
   mkP [] (fold_left (fun m k => srem k m) (block_keys block) (umap p1)) 0 false (gts p1).
 
+
+Definition drained_pool (p1 : pool) : pool := mkP [] [] 0 (Mempool.fresh p1) (gts p1).
+
 Lemma bundle_cases l p env wn st ex p' r :
   bundle_block l p env wn st ex = Ok (p', r) ->
   (p' = p /\ r = None /\ create_fails l p env wn st ex = false) \/
   exists s p1, st = Some s /\ can_bundle_block p env wn = true /\
     add_transaction_if_validates l p s = Ok p1 /\
     ((dup_spend (txs p1 ++ ex) = true /\ create_fails l p env wn st ex = true /\
-      p' = set_txs p1 [] /\ r = None) \/
+      p' = drained_pool p1 /\ r = None) \/
      (dup_spend (txs p1 ++ ex) = false /\ create_fails l p env wn st ex = false /\
       p' = bundled_pool p1 (txs p1 ++ ex) /\ r = Some (txs p1 ++ ex))).
 Proof.
@@ -356,35 +359,6 @@ Proof.
 Qed.
 
 (* ------------------------------------------------------------------ *)
-(* putting transactions back                                           *)
-
-Lemma add_back_fields l p mine b :
-  umap (add_block_transactions_back l p mine b) = umap p /\
-  work (add_block_transactions_back l p mine b) = work p.
-Proof. unfold add_block_transactions_back. destruct mine; simpl; auto. Qed.
-
-Lemma add_failure_no_readd l p h b :
-  is_nil (back_txs l b) = true ->
-  txs (add_block_failure l p h true b) = txs p.
-Proof.
-  unfold add_block_failure, add_block_transactions_back. simpl.
-  destruct (back_txs l b); simpl; [reflexivity | discriminate].
-Qed.
-
-Lemma add_failure_not_mine l p h b :
-  txs (add_block_failure l p h false b) = txs p.
-Proof. reflexivity. Qed.
-
-Lemma add_failure_fields l p h mine b :
-  umap (add_block_failure l p h mine b) = umap p /\
-  work (add_block_failure l p h mine b) = work p.
-Proof.
-  unfold add_block_failure.
-  destruct (add_back_fields l (delete_block p h) mine b) as [H1 H2].
-  rewrite H1, H2. simpl. auto.
-Qed.
-
-(* ------------------------------------------------------------------ *)
 (* runs                                                                *)
 
 Lemma run_cons s o r s' :
@@ -393,148 +367,124 @@ Proof.
   simpl. destruct (step s o) as [x| |site]; simpl; try discriminate. eauto.
 Qed.
 
-(* generic induction: an invariant preserved by every step outside class K
-   holds after every run that has no step in K *)
-Lemma run_invariant (K : state -> op -> bool) (Inv : state -> Prop) :
-  (forall s o x, Inv s -> K s o = false -> step s o = Ok x -> Inv (fst x)) ->
-  forall ops s s', Inv s -> known_in K s ops = false -> run s ops = Ok s' -> Inv s'.
+Lemma run_invariant (Inv : state -> Prop) :
+  (forall s o x, Inv s -> step s o = Ok x -> Inv (fst x)) ->
+  forall ops s s', Inv s -> run s ops = Ok s' -> Inv s'.
 Proof.
-  intros Hstep. induction ops as [|o r IH]; intros s s' HI HK HR.
+  intros Hstep. induction ops as [|o r IH]; intros s s' HI HR.
   - simpl in HR. inversion HR. subst. exact HI.
   - apply run_cons in HR. destruct HR as [x [Hs Hr]].
-    simpl in HK. apply orb_false_iff in HK. destruct HK as [HK1 HK2].
-    rewrite Hs in HK2. eapply IH; [eapply Hstep; eauto | exact HK2 | exact Hr].
-Qed.
-
-Lemma known_in_weaken (K K' : state -> op -> bool) :
-  (forall s o, K s o = true -> K' s o = true) ->
-  forall ops s, known_in K' s ops = false -> known_in K s ops = false.
-Proof.
-  intros H. induction ops as [|o r IH]; intros s HK; simpl in *; [reflexivity|].
-  apply orb_false_iff in HK. destruct HK as [H1 H2]. apply orb_false_iff. split.
-  - destruct (K s o) eqn:E; [|reflexivity]. apply H in E. congruence.
-  - destruct (step s o); auto.
+    eapply IH; [eapply Hstep; eauto | exact Hr].
 Qed.
 
 (* ------------------------------------------------------------------ *)
-(* I1 (with the two auxiliary invariants it needs)                     *)
+(* I1, I3, I5 and the auxiliary invariants hold after every operation  *)
 
-Definition Inv1 (s : state) : Prop := UniqueIds (pl s) /\ Reserved (pl s) /\ I1 (pl s).
+Definition InvR (p : pool) : Prop :=
+  UniqueIds p /\ Reserved p /\ I1 p /\ I3 p /\ I5 p.
 
-Lemma Inv1_empty_txs p : txs p = [] -> UniqueIds p /\ Reserved p /\ I1 p.
+Lemma InvR_empty g u : InvR (mkP [] [] 0 u g).
 Proof.
-  intros E. unfold UniqueIds, Reserved, I1. rewrite E. simpl.
-  repeat split; try constructor. intros t k [].
+  unfold InvR, UniqueIds, Reserved, I1, I3, I5. simpl. repeat split; try constructor.
+  - intros t k [].
+  - intros k [].
 Qed.
 
-Lemma Inv1_add l p t p' :
-  add_transaction_if_validates l p t = Ok p' ->
-  UniqueIds p /\ Reserved p /\ I1 p -> UniqueIds p' /\ Reserved p' /\ I1 p'.
+Lemma InvR_added p t :
+  conflicts p t = false -> has_tx (t_id t) (txs p) = false -> InvR p -> InvR (added p t).
 Proof.
-  intros H [U [R I]]. apply add_if_valid_cases in H.
-  destruct H as [->|[_ [C [Hn ->]]]]; [tauto|].
-  repeat split; [apply added_UniqueIds | apply added_Reserved | apply added_I1]; auto.
+  intros C H [U [R [A [B D]]]]. repeat split.
+  - apply added_UniqueIds; assumption.
+  - apply added_Reserved; assumption.
+  - apply added_I1; assumption.
+  - apply added_I3; assumption.
+  - apply added_I5; assumption.
 Qed.
 
-Lemma Inv1_sub p p' (g : tx -> bool) :
-  txs p' = filter g (txs p) -> umap p' = umap p ->
-  UniqueIds p /\ Reserved p /\ I1 p -> UniqueIds p' /\ Reserved p' /\ I1 p'.
+Lemma InvR_add_transaction p t p' : add_transaction p t = Ok p' -> InvR p -> InvR p'.
 Proof.
-  unfold UniqueIds, Reserved, I1. intros E1 E2 [U [R I]]. rewrite E1, E2. repeat split.
+  intros H I. apply add_transaction_cases in H. destruct H as [->|[C [Hn ->]]]; [exact I|].
+  apply InvR_added; assumption.
+Qed.
+
+Lemma InvR_add_if_valid l p t p' :
+  add_transaction_if_validates l p t = Ok p' -> InvR p -> InvR p'.
+Proof.
+  intros H I. apply add_if_valid_cases in H. destruct H as [->|[_ [C [Hn ->]]]]; [exact I|].
+  apply InvR_added; assumption.
+Qed.
+
+Lemma InvR_add_all l : forall p p', add_all p l = Ok p' -> InvR p -> InvR p'.
+Proof.
+  induction l as [|t l IH]; intros p p' H I; simpl in H.
+  - inversion H. subst. exact I.
+  - destruct (add_transaction p t) as [p1| |] eqn:A; simpl in H; try discriminate.
+    eapply IH; [exact H|]. eapply InvR_add_transaction; eauto.
+Qed.
+
+Lemma InvR_gts_fresh p g u : InvR p -> InvR (mkP (txs p) (umap p) (work p) u g).
+Proof. unfold InvR, UniqueIds, Reserved, I1, I3, I5. simpl. tauto. Qed.
+
+Lemma InvR_remove l p b : InvR p -> InvR (remove_block_transactions l p b).
+Proof.
+  intros [U [_ [A _]]]. destruct (remove_block_fields l p b) as [E1 [E2 E3]].
+  unfold InvR, UniqueIds, Reserved, I1, I3, I5. rewrite E2, E3, E1. repeat split.
   - apply NoDup_map_filter. exact U.
-  - intros t k Ht Hk. apply filter_In in Ht. eapply R; eauto. tauto.
-  - apply FOP_filter. exact I.
+  - intros t k Ht Hk. apply fold_sadd_In. left. unfold block_keys. apply in_flat_map. eauto.
+  - apply FOP_filter. exact A.
+  - intros k Hk. apply fold_sadd_In in Hk. destruct Hk as [Hk|[]].
+    unfold block_keys in Hk. apply in_flat_map in Hk. exact Hk.
+  - apply sum_work_spec.
 Qed.
 
-Lemma Inv1_same p p' :
-  txs p' = txs p -> umap p' = umap p ->
-  UniqueIds p /\ Reserved p /\ I1 p -> UniqueIds p' /\ Reserved p' /\ I1 p'.
+Lemma InvR_bundled p1 b :
+  I3 p1 -> (forall t, In t (txs p1) -> In t b) -> InvR (bundled_pool p1 b).
 Proof.
-  unfold UniqueIds, Reserved, I1. intros E1 E2. rewrite E1, E2. tauto.
+  intros H3 Hsub. unfold InvR, UniqueIds, Reserved, I1, I3, I5, bundled_pool. simpl.
+  repeat split; try constructor.
+  - intros t k [].
+  - intros k Hk. apply fold_srem_In in Hk. destruct Hk as [Hk Hn].
+    destruct (H3 k Hk) as [t [Ht Hkt]]. exfalso. apply Hn. unfold block_keys.
+    apply in_flat_map. exists t. auto.
 Qed.
 
-Lemma Inv1_step s o x :
-  Inv1 s -> ev_readded s o = false -> step s o = Ok x -> Inv1 (fst x).
+Lemma InvR_failure l p h mine b p' :
+  add_block_failure l p h mine b = Ok p' -> InvR p -> InvR p'.
 Proof.
-  unfold Inv1. intros HI HK HS. destruct o as [t|a b|env wn st ex|l b|h mine b]; simpl in HS.
+  unfold add_block_failure, add_block_transactions_back. intros H I.
+  assert (InvR (delete_block p h)) as HD by (apply (InvR_gts_fresh p); exact I).
+  destruct mine; [|inversion H; subst; exact HD].
+  destruct (add_all (delete_block p h) (back_txs l b)) as [p1| |] eqn:A; simpl in H; try discriminate.
+  inversion H. subst. apply (InvR_gts_fresh p1). eapply InvR_add_all; eauto.
+Qed.
+
+Lemma InvR_step s o x : InvR (pl s) -> step s o = Ok x -> InvR (pl (fst x)).
+Proof.
+  intros HI HS. destruct o as [t|a b|env wn st ex|l b|h mine b]; simpl in HS.
   - destruct (add_transaction_if_validates (ledger s) (pl s) t) eqn:A; simpl in HS; try discriminate.
-    inversion HS. subst. simpl. eapply Inv1_add; eauto.
-  - inversion HS. subst. simpl. destruct (add_gt_fields (pl s) a b) as [E1 [E2 _]].
-    eapply Inv1_same; eauto.
+    inversion HS. subst. simpl. eapply InvR_add_if_valid; eauto.
+  - inversion HS. subst. simpl. unfold add_golden_ticket.
+    destruct (existsb _ _); [exact HI|]. apply (InvR_gts_fresh (pl s)). exact HI.
   - destruct (bundle_block (ledger s) (pl s) env wn st ex) as [[p' r]| |] eqn:B; simpl in HS; try discriminate.
     inversion HS. subst. simpl. apply bundle_cases in B.
-    destruct B as [[-> _]|[s0 [p1 [_ [_ [A [[_ [_ [-> _]]]|[_ [_ [-> _]]]]]]]]]]; auto;
-      apply Inv1_empty_txs; reflexivity.
-  - inversion HS. subst. simpl.
-    destruct (remove_block_fields l (pl s) b) as [E1 [E2 _]].
-    apply (Inv1_sub (pl s) _ (fun t => valid_against l t && negb (in_block t b))); [ | exact E2 | exact HI].
-    rewrite E1. apply filter_filter.
-  - inversion HS. subst. simpl.
-    destruct (add_failure_fields (ledger s) (pl s) h mine b) as [E2 _].
-    apply (Inv1_same (pl s)); [ | exact E2 | exact HI].
-    destruct mine; [|apply add_failure_not_mine].
-    apply add_failure_no_readd. simpl in HK. apply negb_false_iff in HK. exact HK.
+    destruct B as [[-> _]|[s0 [p1 [_ [_ [A [[_ [_ [-> _]]]|[_ [_ [-> _]]]]]]]]]]; auto.
+    + apply InvR_empty.
+    + apply InvR_bundled.
+      * eapply InvR_add_if_valid in A; [|exact HI]. destruct A as [_ [_ [_ [H3 _]]]]. exact H3.
+      * intros t Ht. apply in_app_iff. auto.
+  - inversion HS. subst. simpl. apply InvR_remove. exact HI.
+  - destruct (add_block_failure (ledger s) (pl s) h mine b) as [p'| |] eqn:F; simpl in HS; try discriminate.
+    inversion HS. subst. simpl. eapply InvR_failure; eauto.
 Qed.
 
-Lemma Inv1_init g : Inv1 (init g).
-Proof. apply Inv1_empty_txs. reflexivity. Qed.
-
-Theorem no_double_spend_in_pool : forall g ops s,
-  known_in ev_readded (init g) ops = false -> run (init g) ops = Ok s -> I1 (pl s).
-Proof.
-  intros g ops s HK HR.
-  assert (Inv1 s) as [_ [_ H]]; [|exact H].
-  eapply (run_invariant ev_readded Inv1); eauto using Inv1_step, Inv1_init.
-Qed.
-
-Theorem pooled_inputs_reserved : forall g ops s,
-  known_in ev_readded (init g) ops = false -> run (init g) ops = Ok s ->
-  UniqueIds (pl s) /\ Reserved (pl s).
-Proof.
-  intros g ops s HK HR.
-  assert (Inv1 s) as [H1 [H2 _]]; [|auto].
-  eapply (run_invariant ev_readded Inv1); eauto using Inv1_step, Inv1_init.
-Qed.
-
-(* the map invariant holds unconditionally *)
-Lemma fold_insert_unique back : forall l,
-  NoDup (map t_id l) -> NoDup (map t_id (fold_left insert_tx back l)).
-Proof.
-  induction back as [|u back IH]; intros l H; simpl; [exact H|].
-  apply IH. unfold insert_tx. simpl. constructor.
-  - intros Hin. apply in_map_iff in Hin. destruct Hin as [x [E Hx]].
-    apply del_tx_In in Hx. tauto.
-  - unfold del_tx. apply NoDup_map_filter. exact H.
-Qed.
-
-Lemma UniqueIds_step s o x :
-  UniqueIds (pl s) -> step s o = Ok x -> UniqueIds (pl (fst x)).
-Proof.
-  intros U HS. destruct o as [t|a b|env wn st ex|l b|h mine b]; simpl in HS.
-  - destruct (add_transaction_if_validates (ledger s) (pl s) t) eqn:A; simpl in HS; try discriminate.
-    inversion HS. subst. simpl. apply add_if_valid_cases in A.
-    destruct A as [->|[_ [_ [Hn ->]]]]; auto using added_UniqueIds.
-  - inversion HS. subst. simpl. unfold UniqueIds.
-    destruct (add_gt_fields (pl s) a b) as [E1 _]. rewrite E1. exact U.
-  - destruct (bundle_block (ledger s) (pl s) env wn st ex) as [[p' r]| |] eqn:B; simpl in HS; try discriminate.
-    inversion HS. subst. simpl. apply bundle_cases in B.
-    destruct B as [[-> _]|[s0 [p1 [_ [_ [A [[_ [_ [-> _]]]|[_ [_ [-> _]]]]]]]]]]; auto;
-      unfold UniqueIds; simpl; constructor.
-  - inversion HS. subst. simpl. unfold UniqueIds.
-    destruct (remove_block_fields l (pl s) b) as [E1 _]. rewrite E1.
-    apply NoDup_map_filter. apply NoDup_map_filter. exact U.
-  - inversion HS. subst. simpl. unfold UniqueIds, add_block_failure, add_block_transactions_back.
-    destruct mine; simpl; [|exact U]. apply fold_insert_unique. exact U.
-Qed.
-
-Theorem ids_unique : forall g ops s, run (init g) ops = Ok s -> UniqueIds (pl s).
+Theorem all_invariants : forall g ops s,
+  run (init g) ops = Ok s ->
+  UniqueIds (pl s) /\ Reserved (pl s) /\ I1 (pl s) /\ I3 (pl s) /\ I5 (pl s).
 Proof.
   intros g ops s HR.
-  eapply (run_invariant (fun _ _ => false) (fun s => UniqueIds (pl s))); eauto.
-  - intros. eapply UniqueIds_step; eauto.
-  - unfold UniqueIds. simpl. constructor.
-  - clear. generalize (init g). induction ops as [|o r IH]; intros s; simpl; [reflexivity|].
-    destruct (step s o); auto.
+  apply (run_invariant (fun s => InvR (pl s))) with (ops := ops) (s := init g); auto.
+  - intros. eapply InvR_step; eauto.
+  - apply InvR_empty.
 Qed.
 
 (* ------------------------------------------------------------------ *)
@@ -545,8 +495,9 @@ Theorem pooled_valid_after_block : forall s l b x,
 Proof.
   intros s l b x H. simpl in H. inversion H. subst. simpl. split; [reflexivity|].
   intros t Ht. destruct (remove_block_fields l (pl s) b) as [E _]. rewrite E in Ht.
-  apply filter_In in Ht. destruct Ht as [Ht _]. apply filter_In in Ht. tauto.
+  apply filter_In in Ht. destruct Ht as [_ Ht]. apply andb_true_iff in Ht. tauto.
 Qed.
+
 
 (* ... and stays valid until the ledger changes again, as long as what arrives is of a
    type whose validate() consults the utxoset (Fee / SPV / BlockStake carry no value inputs
@@ -580,13 +531,16 @@ Definition op_consults (o : op) : Prop :=
   | _ => True
   end.
 
-Lemma fold_insert_In back : forall l t,
-  In t (fold_left insert_tx back l) -> In t l \/ In t back.
+
+Lemma add_all_In l : forall p p' t,
+  add_all p l = Ok p' -> In t (txs p') -> In t (txs p) \/ In t l.
 Proof.
-  induction back as [|u back IH]; intros l t H; simpl in H; [auto|].
-  apply IH in H. destruct H as [H|H]; [|right; right; exact H].
-  unfold insert_tx in H. destruct H as [->|H]; [right; left; reflexivity|].
-  apply del_tx_In in H. tauto.
+  induction l as [|u l IH]; intros p p' t H Ht; simpl in H.
+  - inversion H. subst. auto.
+  - destruct (add_transaction p u) as [p1| |] eqn:A; simpl in H; try discriminate.
+    destruct (IH p1 p' t H Ht) as [H1|H1]; [|right; right; exact H1].
+    apply add_transaction_cases in A. destruct A as [->|[_ [_ ->]]]; [auto|].
+    simpl in H1. destruct H1 as [<-|H1]; [right; left; reflexivity | auto].
 Qed.
 
 Lemma I2_step s o x :
@@ -606,14 +560,18 @@ Proof.
     destruct B as [[-> _]|[s0 [p1 [_ [_ [A [[_ [_ [-> _]]]|[_ [_ [-> _]]]]]]]]]]; auto;
       intros u [].
   - apply pooled_valid_after_block in HS. destruct HS as [E H]. rewrite E. exact H.
-  - simpl in HS. inversion HS. subst. simpl. intros t Ht.
-    unfold add_block_failure, add_block_transactions_back in Ht. destruct mine; simpl in Ht.
-    + apply fold_insert_In in Ht. destruct Ht as [Ht|Ht]; [apply HI; exact Ht|].
-      unfold back_txs in Ht. apply filter_In in Ht. destruct Ht as [_ Ht].
-      apply andb_true_iff in Ht. destruct Ht as [Hn Hv].
+  - simpl in HS.
+    destruct (add_block_failure (ledger s) (pl s) h mine b) as [p'| |] eqn:F; simpl in HS; try discriminate.
+    inversion HS. subst. simpl. intros t Ht.
+    unfold add_block_failure, add_block_transactions_back in F. destruct mine.
+    + destruct (add_all (delete_block (pl s) h) (back_txs (ledger s) b)) as [p1| |] eqn:A; simpl in F; try discriminate.
+      inversion F. subst. simpl in Ht.
+      destruct (add_all_In _ _ _ t A Ht) as [H1|H1]; [apply HI; exact H1|].
+      unfold back_txs in H1. apply filter_In in H1. destruct H1 as [_ H1].
+      apply andb_true_iff in H1. destruct H1 as [Hn Hv].
       apply tx_validate_valid; [|exact Hv].
       unfold consults_ledger. unfold is_normal in Hn. destruct (t_type t); try discriminate. exact I.
-    + apply HI. exact Ht.
+    + inversion F. subst. apply HI. exact Ht.
 Qed.
 
 Theorem pooled_valid_always : forall g ops s,
@@ -627,95 +585,7 @@ Proof.
 Qed.
 
 (* ------------------------------------------------------------------ *)
-(* I3                                                                  *)
-
-Definition K3 (s : state) (o : op) : bool :=
-  ev_invalidated s o || ev_confirmed s o || ev_failed_create s o || ev_sig_collision s o.
-
-(* re-insertion keeps, for every pooled transaction, one with the same inputs *)
-Lemma fold_insert_keeps back : forall l,
-  (forall u, In u back -> forall t, In t (l ++ back) -> t_id t = t_id u -> in_keys t = in_keys u) ->
-  forall t, In t l -> exists t', In t' (fold_left insert_tx back l) /\ in_keys t' = in_keys t.
-Proof.
-  induction back as [|u back IH]; intros l H t Ht; simpl; [eauto|].
-  assert (Hnext : forall u0, In u0 back -> forall t0, In t0 (insert_tx l u ++ back) ->
-                  t_id t0 = t_id u0 -> in_keys t0 = in_keys u0).
-  { intros u0 Hu0 t0 Ht0 E. apply (H u0); [right; exact Hu0| |exact E].
-    apply in_app_iff in Ht0. apply in_app_iff. destruct Ht0 as [Ht0|Ht0]; [|right; right; exact Ht0].
-    unfold insert_tx in Ht0. destruct Ht0 as [<-|Ht0]; [right; left; reflexivity|].
-    apply del_tx_In in Ht0. left. tauto. }
-  destruct (N.eq_dec (t_id t) (t_id u)) as [E|E].
-  - destruct (IH (insert_tx l u) Hnext u) as [t' [H1 H2]]; [left; reflexivity|].
-    exists t'. split; [exact H1|]. rewrite H2. symmetry. apply (H u); [left; reflexivity| |exact E].
-    apply in_app_iff. left. exact Ht.
-  - apply (IH (insert_tx l u) Hnext t). right. apply del_tx_In. tauto.
-Qed.
-
-Lemma sig_collision_false s h b :
-  ev_sig_collision s (OBlockFailed h true b) = false ->
-  forall u, In u (back_txs (ledger s) b) ->
-  forall t, In t (txs (pl s) ++ back_txs (ledger s) b) -> t_id t = t_id u -> in_keys t = in_keys u.
-Proof.
-  simpl. intros H u Hu t Ht E. rewrite existsb_false in H. specialize (H u Hu).
-  rewrite existsb_false in H. specialize (H t Ht).
-  apply andb_false_iff in H. destruct H as [H|H].
-  - apply N.eqb_neq in H. contradiction.
-  - apply negb_false_iff in H. revert H. generalize (in_keys t) (in_keys u). clear.
-    induction l as [|a l IH]; intros [|c m] H; simpl in H; try discriminate; [reflexivity|].
-    apply andb_true_iff in H. destruct H as [H1 H2]. apply N.eqb_eq in H1. subst.
-    f_equal. apply IH. exact H2.
-Qed.
-
-Lemma I3_step s o x :
-  I3 (pl s) -> K3 s o = false -> step s o = Ok x -> I3 (pl (fst x)).
-Proof.
-  unfold K3. intros HI HK HS.
-  apply orb_false_iff in HK; destruct HK as [HK Hsc].
-  apply orb_false_iff in HK; destruct HK as [HK Hfc].
-  apply orb_false_iff in HK; destruct HK as [Hinv Hconf].
-  destruct o as [t|a b|env wn st ex|l b|h mine b]; simpl in HS.
-  - destruct (add_transaction_if_validates (ledger s) (pl s) t) eqn:A; simpl in HS; try discriminate.
-    inversion HS. subst. simpl. apply add_if_valid_cases in A.
-    destruct A as [->|[_ [_ [_ ->]]]]; auto using added_I3.
-  - inversion HS. subst. simpl. unfold I3.
-    destruct (add_gt_fields (pl s) a b) as [E1 [E2 _]]. rewrite E1, E2. exact HI.
-  - destruct (bundle_block (ledger s) (pl s) env wn st ex) as [[p' r]| |] eqn:B; simpl in HS; try discriminate.
-    inversion HS. subst. simpl. apply bundle_cases in B.
-    destruct B as [[-> _]|[s0 [p1 [_ [_ [A [[_ [F _]]|[_ [_ [-> _]]]]]]]]]]; auto.
-    + simpl in *. congruence.
-    + assert (I3 p1) as H1.
-      { apply add_if_valid_cases in A. destruct A as [->|[_ [_ [_ ->]]]]; auto using added_I3. }
-      intros k Hk. simpl in Hk. apply fold_srem_In in Hk. destruct Hk as [Hk Hn].
-      destruct (H1 k Hk) as [t [Ht Hkt]]. exfalso. apply Hn. unfold block_keys.
-      apply in_flat_map. exists t. split; [apply in_app_iff; left; exact Ht | exact Hkt].
-  - inversion HS. subst. simpl.
-    destruct (remove_block_fields l (pl s) b) as [E1 [E2 _]].
-    intros k Hk. rewrite E2 in Hk. destruct (HI k Hk) as [t [Ht Hkt]].
-    exists t. split; [|exact Hkt]. rewrite E1.
-    simpl in Hinv, Hconf. rewrite existsb_false in Hinv, Hconf.
-    specialize (Hinv t Ht). specialize (Hconf t Ht).
-    assert (Hnb : in_block t b = false).
-    { apply andb_false_iff in Hconf. destruct Hconf as [H1|H1]; [exact H1|].
-      apply negb_false_iff in H1. unfold in_keys in Hkt.
-      destruct (t_inputs t); [contradiction | discriminate]. }
-    rewrite Hnb in Hinv. simpl in Hinv. rewrite andb_true_r in Hinv. apply negb_false_iff in Hinv.
-    apply filter_In. split; [apply filter_In; auto|]. rewrite Hnb. reflexivity.
-  - inversion HS. subst. simpl.
-    destruct (add_failure_fields (ledger s) (pl s) h mine b) as [E2 _].
-    intros k Hk. rewrite E2 in Hk. destruct (HI k Hk) as [t [Ht Hkt]].
-    unfold add_block_failure, add_block_transactions_back. destruct mine; simpl; [|eauto].
-    destruct (fold_insert_keeps (back_txs (ledger s) b) (txs (pl s))
-                (sig_collision_false s h b Hsc) t Ht) as [t' [H1' H2']].
-    exists t'. split; [exact H1'|]. rewrite H2'. exact Hkt.
-Qed.
-
-Theorem no_stale_reservation : forall g ops s,
-  known_in K3 (init g) ops = false -> run (init g) ops = Ok s -> I3 (pl s).
-Proof.
-  intros g ops s HK HR.
-  eapply (run_invariant K3 (fun s => I3 (pl s))); eauto using I3_step.
-  intros k [].
-Qed.
+(* I3, user-visible form                                               *)
 
 (* user-visible form: an output that no pooled transaction names as an input can be
    spent by a fresh valid transaction *)
@@ -735,44 +605,20 @@ Proof.
   destruct (t_type t); try congruence; split; try reflexivity; simpl; auto.
 Qed.
 
-(* ------------------------------------------------------------------ *)
-(* I5                                                                  *)
 
-Definition K5 (s : state) (o : op) : bool := ev_failed_create s o || ev_readded s o.
-
-Lemma I5_step s o x :
-  I5 (pl s) -> K5 s o = false -> step s o = Ok x -> I5 (pl (fst x)).
+(* ... hence after every operation sequence *)
+Theorem unspent_always_spendable : forall g ops s t,
+  run (init g) ops = Ok s ->
+  tx_validate (ledger s) t = true -> t_type t <> TGoldenTicket -> producer_only t = false ->
+  has_tx (t_id t) (txs (pl s)) = false ->
+  (forall k u, In k (vkeys t) -> In u (txs (pl s)) -> ~ In k (in_keys u)) ->
+  exists p', add_transaction_if_validates (ledger s) (pl s) t = Ok p' /\ In t (txs p').
 Proof.
-  unfold K5. intros HI HK HS. apply orb_false_iff in HK. destruct HK as [HK1 HK2].
-  destruct o as [t|a b|env wn st ex|l b|h mine b]; simpl in HS.
-  - destruct (add_transaction_if_validates (ledger s) (pl s) t) eqn:A; simpl in HS; try discriminate.
-    inversion HS. subst. simpl. apply add_if_valid_cases in A.
-    destruct A as [->|[_ [_ [_ ->]]]]; auto using added_I5.
-  - inversion HS. subst. simpl. unfold I5.
-    destruct (add_gt_fields (pl s) a b) as [E1 [_ E3]]. rewrite E1, E3. exact HI.
-  - destruct (bundle_block (ledger s) (pl s) env wn st ex) as [[p' r]| |] eqn:B; simpl in HS; try discriminate.
-    inversion HS. subst. simpl. apply bundle_cases in B.
-    destruct B as [[-> _]|[s0 [p1 [_ [_ [A [[_ [F _]]|[_ [_ [-> _]]]]]]]]]]; auto.
-    + simpl in *. congruence.
-    + unfold I5. simpl. symmetry. apply N.mod_0_l. apply M64_pos.
-  - inversion HS. subst. simpl. unfold I5.
-    destruct (remove_block_fields l (pl s) b) as [_ [_ E3]]. rewrite E3. apply sum_work_spec.
-  - inversion HS. subst. simpl. unfold I5.
-    destruct (add_failure_fields (ledger s) (pl s) h mine b) as [_ E3]. rewrite E3.
-    replace (txs (add_block_failure (ledger s) (pl s) h mine b)) with (txs (pl s)); [exact HI|].
-    symmetry. destruct mine; [|apply add_failure_not_mine].
-    apply add_failure_no_readd. simpl in HK2. apply negb_false_iff in HK2. exact HK2.
+  intros g ops s t HR. destruct (all_invariants g ops s HR) as [_ [_ [_ [H3 _]]]].
+  apply fresh_spend_pooled. exact H3.
 Qed.
 
-Theorem routing_work_cache : forall g ops s,
-  known_in K5 (init g) ops = false -> run (init g) ops = Ok s -> I5 (pl s).
-Proof.
-  intros g ops s HK HR.
-  eapply (run_invariant K5 (fun s => I5 (pl s))); eauto using I5_step.
-  unfold I5. simpl. symmetry. apply N.mod_0_l. apply M64_pos.
-Qed.
-
-(* the recomputation in delete_transactions repairs the cache unconditionally *)
+(* the recomputation in delete_transactions makes the cache exact, whatever it was *)
 Theorem routing_work_exact_after_block : forall s l b x,
   step s (OBlockAdded l b) = Ok x -> I5 (pl (fst x)).
 Proof.
@@ -804,6 +650,18 @@ Proof.
   - intros t Ht. apply in_app_iff. left. auto.
   - intros t k Ht Hk Hin. apply fold_srem_In in Hin. destruct Hin as [_ Hn]. apply Hn.
     unfold block_keys. apply in_flat_map. eauto.
+Qed.
+
+(* when Block::create does fail the drained transactions are lost, but nothing stale is
+   left: the pool is empty, without reservations, with a zero cache *)
+Theorem failed_create_leaves_empty_pool : forall l p env wn st ex p' r,
+  bundle_block l p env wn st ex = Ok (p', r) ->
+  create_fails l p env wn st ex = true ->
+  r = None /\ txs p' = [] /\ umap p' = [] /\ work p' = 0.
+Proof.
+  intros l p env wn st ex p' r B F. apply bundle_cases in B.
+  destruct B as [[_ [_ F']]|[s0 [p1 [_ [_ [A [[_ [_ [-> ->]]]|[_ [F' _]]]]]]]]]; try congruence.
+  simpl. auto.
 Qed.
 
 Lemma NoDup_app' (a b : list N) : NoDup a -> NoDup b -> Disjoint a b -> NoDup (a ++ b).
@@ -842,6 +700,11 @@ Qed.
 (* Block::create cannot fail after the drain when the pool has no double spend (I1, which
    holds on every run without a re-insertion), no pooled transaction names an input twice,
    and what Block::create adds itself does not clash *)
+(* Block::create cannot fail after the drain when no pooled transaction (nor the staking
+   transaction) names an input twice -- Transaction::validate rejects those since 0fedb86 --
+   and what Block::create adds itself (golden ticket, rebroadcasts, fee transaction) does
+   not spend an output that a pooled transaction spends.  I1 and Reserved hold on every
+   reachable pool (all_invariants). *)
 Theorem create_succeeds : forall l p env wn st ex,
   Reserved p -> I1 p ->
   (forall t, In t (txs p) -> NoDup (vkeys t)) ->
@@ -887,6 +750,18 @@ Proof.
   destruct (t_type t); try congruence; eauto.
 Qed.
 
+Lemma add_all_total l : forall p,
+  (forall t, In t l -> is_normal t = true) -> exists p', add_all p l = Ok p'.
+Proof.
+  induction l as [|t l IH]; intros p H; simpl; [eauto|].
+  assert (exists p1, add_transaction p t = Ok p1) as [p1 ->].
+  { unfold add_transaction. destruct (conflicts p t); [eauto|].
+    destruct (has_tx (t_id t) (txs p)); [eauto|].
+    assert (is_normal t = true) as Hn by (apply H; left; reflexivity).
+    unfold is_normal in Hn. destruct (t_type t); try discriminate; eauto. }
+  simpl. apply IH. intros u Hu. apply H. right. exact Hu.
+Qed.
+
 Lemma step_total s o : op_no_gt o -> exists x, step s o = Ok x.
 Proof.
   intros H. destruct o as [t|a b|env wn st ex|l b|h mine b]; simpl in *; eauto.
@@ -895,6 +770,11 @@ Proof.
     destruct st as [st|]; simpl; [|eauto].
     destruct (add_if_valid_total (ledger s) (pl s) st H) as [p' ->]. simpl.
     destruct (dup_spend (txs p' ++ ex)); simpl; eauto.
+  - unfold add_block_failure, add_block_transactions_back. destruct mine; simpl; [|eauto].
+    destruct (add_all_total (back_txs (ledger s) b) (delete_block (pl s) h)) as [p' ->].
+    + intros t Ht. unfold back_txs in Ht. apply filter_In in Ht. destruct Ht as [_ Ht].
+      apply andb_true_iff in Ht. tauto.
+    + simpl. eauto.
 Qed.
 
 Theorem no_panic : forall ops s, Forall op_no_gt ops -> exists s', run s ops = Ok s'.
@@ -915,146 +795,31 @@ Proof.
   destruct (t_type t); try discriminate. intros H. inversion H. auto.
 Qed.
 
+
 (* ------------------------------------------------------------------ *)
-(* refutations on the pinned model: smallest witnesses                 *)
+(* witnesses                                                           *)
 
 Definition wA  : tx := mkTx 10 [(1, 100)] 50 TNormal true 0.
 Definition wA2 : tx := mkTx 10 [(1, 100); (2, 100)] 50 TNormal true 0.
 Definition wB  : tx := mkTx 11 [(1, 100)] 30 TNormal true 0.      (* spends what wA spends *)
 Definition wC  : tx := mkTx 13 [(2, 100)] 20 TNormal true 0.
-Definition wD  : tx := mkTx 14 [(3, 100); (3, 100)] 70 TNormal true 0.   (* same input twice *)
 Definition wS  : tx := mkTx 90 [] 0 TBlockStake true 0.           (* staking transaction, stake 0 *)
+Definition wR  : tx := mkTx 30 [(1, 100)] 0 TATR true 0.          (* rebroadcast of output 1 *)
 Definition wG  : list N := [1; 2; 3].
 
-(* own bundled block fails to be added; its transaction comes back unreserved and a
-   conflicting one is admitted *)
-Definition ops_readd : list op :=
-  [OAddTx wA; OBundle true 0 (Some wS) []; OBlockFailed 77 true [wA; wS]; OAddTx wB].
-(* a peer block spends one of the two inputs of a pooled transaction *)
-Definition ops_invalidated : list op :=
-  [OAddTx wA2; OBlockAdded [2; 3; 4] [mkTx 12 [(1, 100)] 0 TNormal true 0]].
-(* a peer block confirms a pooled transaction; a reorganisation returns to a ledger where
-   its input is unspent *)
-Definition ops_confirmed : list op :=
-  [OAddTx wA; OBlockAdded [2; 3; 4] [wA]; OBlockAdded [1; 2; 3; 5] []].
-(* a block off the longest chain contains a pooled transaction: the ledger is unchanged,
-   the transaction is deleted from the pool, its input stays reserved *)
-Definition ops_confirmed_offchain : list op :=
-  [OAddTx wA; OBlockAdded [1; 2; 3] [wA]].
-(* a transaction naming the same input twice makes Block::create fail after the drain *)
-Definition ops_dup_input : list op :=
-  [OAddTx wA; OAddTx wD; OBundle true 0 (Some wS) []].
-
-Lemma I1_refuted :
-  exists g ops s, run (init g) ops = Ok s /\ known_in ev_readded (init g) ops = true /\ ~ I1 (pl s).
-Proof.
-  exists wG, ops_readd. eexists. split; [vm_compute; reflexivity|]. split; [vm_compute; reflexivity|].
-  intros H. apply I1_I1b in H. vm_compute in H. discriminate.
-Qed.
-
-Lemma I3_refuted_invalidated :
-  exists g ops s, run (init g) ops = Ok s /\ known_in ev_invalidated (init g) ops = true /\ ~ I3 (pl s).
-Proof.
-  exists wG, ops_invalidated. eexists. split; [vm_compute; reflexivity|]. split; [vm_compute; reflexivity|].
-  intros H. apply I3_I3b in H. vm_compute in H. discriminate.
-Qed.
-
-Lemma I3_refuted_confirmed :
-  exists g ops s, run (init g) ops = Ok s /\ known_in ev_confirmed (init g) ops = true /\ ~ I3 (pl s).
-Proof.
-  exists wG, ops_confirmed. eexists. split; [vm_compute; reflexivity|]. split; [vm_compute; reflexivity|].
-  intros H. apply I3_I3b in H. vm_compute in H. discriminate.
-Qed.
-
-Lemma I3_refuted_failed_create :
-  exists g ops s, run (init g) ops = Ok s /\ known_in ev_failed_create (init g) ops = true /\ ~ I3 (pl s).
-Proof.
-  exists wG, ops_dup_input. eexists. split; [vm_compute; reflexivity|]. split; [vm_compute; reflexivity|].
-  intros H. apply I3_I3b in H. vm_compute in H. discriminate.
-Qed.
-
-(* user-visible: a spendable output that no pooled transaction names, and a fresh valid
-   transaction spending it that the pool does not take *)
-Definition funds_locked (s : state) (t : tx) : Prop :=
-  tx_validate (ledger s) t = true /\ t_type t = TNormal /\
-  has_tx (t_id t) (txs (pl s)) = false /\
-  (forall k u, In k (vkeys t) -> In u (txs (pl s)) -> ~ In k (in_keys u)) /\
-  add_transaction_if_validates (ledger s) (pl s) t = Ok (pl s).
-
-Lemma funds_locked_invalidated :
-  exists g ops s t, run (init g) ops = Ok s /\ funds_locked s t.
-Proof.
-  exists wG, ops_invalidated. eexists. exists wC. split; [vm_compute; reflexivity|].
-  unfold funds_locked. simpl. repeat split; try reflexivity. intros k u _ [].
-Qed.
-
-Lemma funds_locked_confirmed_reorg :
-  exists g ops s t, run (init g) ops = Ok s /\ funds_locked s t.
-Proof.
-  exists wG, ops_confirmed. eexists. exists wB. split; [vm_compute; reflexivity|].
-  unfold funds_locked. simpl. repeat split; try reflexivity. intros k u _ [].
-Qed.
-
-Lemma funds_locked_confirmed_offchain :
-  exists g ops s t, run (init g) ops = Ok s /\ funds_locked s t.
-Proof.
-  exists wG, ops_confirmed_offchain. eexists. exists wB. split; [vm_compute; reflexivity|].
-  unfold funds_locked. simpl. repeat split; try reflexivity. intros k u _ [].
-Qed.
-
-Lemma funds_locked_failed_create :
-  exists g ops s t, run (init g) ops = Ok s /\ funds_locked s t.
-Proof.
-  exists wG, ops_dup_input. eexists. exists wB. split; [vm_compute; reflexivity|].
-  unfold funds_locked. simpl. repeat split; try reflexivity. intros k u _ [].
-Qed.
-
+(* I4 still fails: Block::create rebroadcasts an output at the window edge that a pooled
+   transaction spends; it detects the double spend after draining the pool, and the two
+   pooled transactions (one of them unrelated to the clash) are lost *)
 Lemma I4_refuted :
   exists g ops s env wn st ex p',
     run (init g) ops = Ok s /\
-    bundle_block (ledger s) (pl s) env wn st ex = Ok (p', None) /\ p' <> pl s /\
-    ev_failed_create s (OBundle env wn st ex) = true.
-Proof.
-  exists wG, [OAddTx wA; OAddTx wD]. eexists. exists true, 0, (Some wS), []. eexists.
-  split; [vm_compute; reflexivity|]. split; [vm_compute; reflexivity|].
-  split; [intros H; inversion H | vm_compute; reflexivity].
-Qed.
-
-(* the same failure without any ill-formed transaction: the double spend that a
-   re-insertion let into the pool (ops_readd) makes the next Block::create fail *)
-Lemma I4_refuted_after_readd :
-  exists g ops s env wn st ex p',
-    run (init g) ops = Ok s /\
     forallb (fun t => negb (has_dup (vkeys t))) (txs (pl s)) = true /\
-    bundle_block (ledger s) (pl s) env wn st ex = Ok (p', None) /\ p' <> pl s /\
+    map t_id (txs (pl s)) = [13; 10] /\
+    bundle_block (ledger s) (pl s) env wn st ex = Ok (p', None) /\ txs p' = [] /\
     ev_failed_create s (OBundle env wn st ex) = true.
 Proof.
-  exists wG, ops_readd. eexists. exists true, 0, (Some wS), []. eexists.
-  split; [vm_compute; reflexivity|]. split; [vm_compute; reflexivity|].
-  split; [vm_compute; reflexivity|].
-  split; [intros H; inversion H | vm_compute; reflexivity].
-Qed.
-
-Lemma funds_locked_after_readd :
-  exists g ops s t, run (init g) ops = Ok s /\ funds_locked s t.
-Proof.
-  exists wG, (ops_readd ++ [OBundle true 0 (Some wS) []]). eexists.
-  exists (mkTx 17 [(1, 100)] 5 TNormal true 0). split; [vm_compute; reflexivity|].
-  unfold funds_locked. simpl. repeat split; try reflexivity. intros k u _ [].
-Qed.
-
-Lemma I5_refuted_failed_create :
-  exists g ops s, run (init g) ops = Ok s /\ known_in ev_failed_create (init g) ops = true /\ ~ I5 (pl s).
-Proof.
-  exists wG, ops_dup_input. eexists. split; [vm_compute; reflexivity|]. split; [vm_compute; reflexivity|].
-  intros H. apply I5_I5b in H. vm_compute in H. discriminate.
-Qed.
-
-Lemma I5_refuted_readded :
-  exists g ops s, run (init g) ops = Ok s /\ known_in ev_readded (init g) ops = true /\ ~ I5 (pl s).
-Proof.
-  exists wG, ops_readd. eexists. split; [vm_compute; reflexivity|]. split; [vm_compute; reflexivity|].
-  intros H. apply I5_I5b in H. vm_compute in H. discriminate.
+  exists wG, [OAddTx wA; OAddTx wC]. eexists. exists true, 0, (Some wS), [wR]. eexists.
+  split; [vm_compute; reflexivity|]. repeat split; vm_compute; reflexivity.
 Qed.
 
 (* a GoldenTicket-typed transaction handed to add_transaction_if_validates panics *)
@@ -1062,23 +827,52 @@ Lemma panic_reachable :
   exists g t, step (init g) (OAddTx t) = Panic SITE_GT_IN_TXPOOL.
 Proof. exists wG, (mkTx 20 [(0, 0)] 0 TGoldenTicket true 5). reflexivity. Qed.
 
-(* ------------------------------------------------------------------ *)
-(* non-vacuity: a run outside every class that pools, conflicts, bundles, confirms *)
+(* the histories that broke the pool before the fixes 2cf0b5a / cafb4ab / ff837ac:
+   (a) own bundled block fails, its transaction comes back, a conflicting one arrives;
+   (b) a peer block spends one of two inputs of a pooled transaction;
+   (c) a block off the longest chain contains a pooled transaction;
+   each followed by a fresh spend of the output that used to stay locked *)
+Definition ops_readd : list op :=
+  [OAddTx wA; OBundle true 0 (Some wS) []; OBlockFailed 77 true [wA; wS]; OAddTx wB].
+Definition ops_invalidated : list op :=
+  [OAddTx wA2; OBlockAdded [2; 3; 4] [mkTx 12 [(1, 100)] 0 TNormal true 0]; OAddTx wC].
+Definition ops_confirmed_offchain : list op :=
+  [OAddTx wA; OBlockAdded [1; 2; 3] [wA]; OAddTx wB].
 
+Lemma regression_examples :
+  (exists s, run (init wG) ops_readd = Ok s /\
+             map t_id (txs (pl s)) = [10] /\ umap (pl s) = [1] /\ work (pl s) = 50) /\
+  (exists s, run (init wG) ops_invalidated = Ok s /\
+             map t_id (txs (pl s)) = [13] /\ umap (pl s) = [2]) /\
+  (exists s, run (init wG) ops_confirmed_offchain = Ok s /\
+             map t_id (txs (pl s)) = [11] /\ umap (pl s) = [1]).
+Proof.
+  repeat split; eexists; (split; [vm_compute; reflexivity|]); repeat split; vm_compute; reflexivity.
+Qed.
+
+(* non-vacuity: arrivals of which one conflicts, a duplicate, a golden ticket, a successful
+   bundle, the bundled block added, a new arrival, a peer block that invalidates nothing,
+   a failed peer block, a failed own block that returns a transaction *)
 Definition wE : tx := mkTx 15 [(3, 100)] 40 TNormal true 0.
-Definition ops_clean : list op :=
+Definition wF : tx := mkTx 18 [(4, 100)] 7 TNormal true 0.
+Definition ops_life : list op :=
   [OAddTx wA2; OAddTx wB; OAddTx wA2; OAddGT 7 21;
    OBundle true 0 (Some wS) [mkTx 21 [(0, 0)] 0 TGoldenTicket true 7];
    OBlockAdded [3; 4; 5] [mkTx 21 [(0, 0)] 0 TGoldenTicket true 7; wA2; wS];
    OAddTx wE;
    OBlockAdded [3; 4; 5; 6] [mkTx 16 [(9, 5)] 0 TNormal true 0];
-   OBlockFailed 78 false [wE]].
+   OBlockFailed 78 false [wE];
+   OBlockFailed 79 true [wF; wE]].
 
-Definition Kall (s : state) (o : op) : bool :=
-  ev_invalidated s o || ev_confirmed s o || ev_failed_create s o || ev_readded s o
-  || ev_sig_collision s o.
-
-Lemma clean_example :
-  exists s, run (init wG) ops_clean = Ok s /\ known_in Kall (init wG) ops_clean = false /\
-            map t_id (txs (pl s)) = [15] /\ umap (pl s) = [3] /\ work (pl s) = 40.
+Lemma life_example :
+  exists s, run (init wG) ops_life = Ok s /\ known_in ev_failed_create (init wG) ops_life = false /\
+            map t_id (txs (pl s)) = [18; 15] /\ umap (pl s) = [4; 3] /\ work (pl s) = 47.
 Proof. eexists. split; [vm_compute; reflexivity|]. repeat split; vm_compute; reflexivity. Qed.
+
+(* projections of all_invariants, stated separately in props/C14.v *)
+Theorem no_double_spend_in_pool : forall g ops s, run (init g) ops = Ok s -> I1 (pl s).
+Proof. intros g ops s H. apply (all_invariants g ops s H). Qed.
+Theorem no_stale_reservation : forall g ops s, run (init g) ops = Ok s -> I3 (pl s).
+Proof. intros g ops s H. apply (all_invariants g ops s H). Qed.
+Theorem routing_work_cache : forall g ops s, run (init g) ops = Ok s -> I5 (pl s).
+Proof. intros g ops s H. apply (all_invariants g ops s H). Qed.
